@@ -28,25 +28,67 @@ fn push(f: &mut Vec<Fail>, sig: impl Into<String>, msg: String) {
 }
 
 pub fn write_root_bytes(r: &WmoRoot, v: WmoVersion) -> Result<Vec<u8>, Fail> {
-    match guard("write_root", || {
+    let fresh = match guard("write_root", || {
         let mut c = Cursor::new(Vec::new());
         WmoWriter::new().write_root(&mut c, r, v).map(|_| c.into_inner())
     }) {
-        Ok(Ok(b)) => Ok(b),
-        Ok(Err(e)) => Err(Fail::new("root-write-error", format!("write_root failed: {e}"))),
-        Err(f) => Err(f),
+        Ok(Ok(b)) => b,
+        Ok(Err(e)) => return Err(Fail::new("root-write-error", format!("write_root failed: {e}"))),
+        Err(f) => return Err(f),
+    };
+    // same as for groups: a sink that already holds a longer file
+    let reused = guard("write_root(reused sink)", || {
+        let mut c = Cursor::new(vec![0xEEu8; fresh.len() + 911]);
+        WmoWriter::new().write_root(&mut c, r, v).map(|_| {
+            let pos = c.position() as usize;
+            (pos, c.into_inner())
+        })
+    })?;
+    match reused {
+        Ok((pos, buf)) => {
+            if pos != fresh.len() || buf[..pos.min(buf.len())] != fresh[..] {
+                return Err(Fail::new(
+                    "root-write-depends-on-what-the-sink-held",
+                    format!("write_root into a sink holding {} older bytes leaves the stream at {pos} and a file that differs from the {}-byte file written into an empty sink", fresh.len() + 911, fresh.len()),
+                ));
+            }
+        }
+        Err(e) => return Err(Fail::new("root-write-error", format!("write_root into a reused sink failed: {e}"))),
     }
+    Ok(fresh)
 }
 
 pub fn write_group_bytes(g: &WmoGroup, v: WmoVersion) -> Result<Vec<u8>, Fail> {
-    match guard("write_group", || {
+    let fresh = match guard("write_group", || {
         let mut c = Cursor::new(Vec::new());
         WmoWriter::new().write_group(&mut c, g, v).map(|_| c.into_inner())
     }) {
-        Ok(Ok(b)) => Ok(b),
-        Ok(Err(e)) => Err(Fail::new("group-write-error", format!("write_group failed: {e}"))),
-        Err(f) => Err(f),
+        Ok(Ok(b)) => b,
+        Ok(Err(e)) => return Err(Fail::new("group-write-error", format!("write_group failed: {e}"))),
+        Err(f) => return Err(f),
+    };
+    // the same value written over the start of a sink that already holds a longer file (a reused
+    // scratch buffer, a file opened without truncation): the bytes up to the position the writer
+    // leaves the stream at are the file, and they are the same file
+    let reused = guard("write_group(reused sink)", || {
+        let mut c = Cursor::new(vec![0xEEu8; fresh.len() + 1837]);
+        WmoWriter::new().write_group(&mut c, g, v).map(|_| {
+            let pos = c.position() as usize;
+            (pos, c.into_inner())
+        })
+    })?;
+    match reused {
+        Ok((pos, buf)) => {
+            if pos != fresh.len() || buf[..pos.min(buf.len())] != fresh[..] {
+                return Err(Fail::new(
+                    "group-write-depends-on-what-the-sink-held",
+                    format!("write_group into a sink holding {} older bytes leaves the stream at {pos} and a file that differs from the {}-byte file written into an empty sink", fresh.len() + 1837, fresh.len()),
+                ));
+            }
+        }
+        Err(e) => return Err(Fail::new("group-write-error", format!("write_group into a reused sink failed: {e}"))),
     }
+    Ok(fresh)
 }
 
 fn numeq(a: V3, b: V3) -> bool {
